@@ -77,6 +77,9 @@ func (fx *FnExec) formalNames(ct *Contract, c *ssa.CallCommon) []string {
 		return names
 	}
 	if f := c.StaticCallee(); f != nil && len(f.Params) > 0 {
+		if f.Pkg == fx.W.Pkg {
+			return contractParamNames(displayName(f), f)
+		}
 		for _, p := range f.Params {
 			names = append(names, p.Name())
 		}
